@@ -1590,7 +1590,7 @@ class UnpackRun:
                     n = self.lin(it.args[1]) - self.lin(it.args[0])       # range(a, b[, 1]): b - a rounds (for b >= a)
             except Unknown:
                 n = None
-        self.loops.append((loop, n))
+        self.loops.append((_orig(loop), n))
         for t in ast.walk(loop.target):
             if isinstance(t, ast.Name):
                 self.env.pop(t.id, None)
@@ -1724,7 +1724,7 @@ class UnpackRun:
         `while` driven by a counter: `c = N ... while c > 0: ...; c -= 1` (also `while c`, `c != 0`, `c >= 1`) or
         `i = 0 ... while i < N: ...; i += 1` (also `i != N`, `N > i`): the number of rounds as a linear form, evaluated where the loop starts.
         """
-        if any(l is loop for l, _ in self.loops):
+        if any(l is _orig(loop) for l, _ in self.loops):
             return
         n = None
         body_nodes = [x for st in loop.body for x in walk_no_nested(st)]
@@ -1762,7 +1762,7 @@ class UnpackRun:
                                 n = self.lin(n_) - self.lin(i_)
         except Unknown:
             n = None
-        self.loops.append((loop, n))
+        self.loops.append((_orig(loop), n))
 
     def define_wire(self, targets: list[str], value: ast.AST) -> None:
         for t in targets:
@@ -2138,7 +2138,7 @@ def _step_one(ctx: Ctx, pm: PackerModel, run: UnpackRun, node, lab, depth: int) 
         entries = run.table_entries(a.iter)
         if entries is not None:
             entries = [run.subst(x) if isinstance(strip_cast(x), (ast.Name, ast.Subscript, ast.Attribute)) else x for x in entries]   # `(wanted,)` with wanted bound
-        entered = any(l is a for l, _ in run.loops)
+        entered = any(l is _orig(a) for l, _ in run.loops)
         if lab is True:
             if entries is not None and all(run.closed(x) for x in entries):
                 out = []
@@ -2420,9 +2420,251 @@ def _follow_pure(ctx: Ctx, pm: PackerModel, run: UnpackRun, a, call: ast.Call, t
         return None
 
 
+# ------------------------------------------------------------------------------------------ `match` -> the if/elif chain Python executes
+_MATCH_FREE: dict[int, tuple] = {}          # id(function node) -> (function node, match-free twin | None, its CFG | None)
+
+
+def _new_parents(new: ast.AST, parent) -> None:
+    """parent links for freshly built nodes only: a node that already has a parent is a shared node of the repository model and stays as it is"""
+    if hasattr(new, "_parent") or isinstance(new, (ast.expr_context, ast.operator, ast.cmpop, ast.boolop, ast.unaryop)):
+        return
+    new._parent = parent  # type: ignore[attr-defined]
+    for c in ast.iter_child_nodes(new):
+        _new_parents(c, new)
+
+
+def _loads_of(nodes, name: str) -> int:
+    return sum(1 for r in nodes for n in ast.walk(r) if isinstance(n, ast.Name) and n.id == name and isinstance(n.ctx, ast.Load))
+
+
+def _match_as_ifs(fn: ast.AST, st: ast.Match, fields: dict, counter: list) -> list | None:
+    """The statements Python executes for `match`: the subject (the parts of a tuple display, left to right) is evaluated once into temporaries,
+    then the cases are tried in order - pattern test, captures, guard - and the first that matches runs; no case = fall through.  Exact for
+    value / singleton / capture / wildcard / or / class patterns and fixed-length sequence patterns over a tuple display; a capture read by
+    its guard is replaced there by the (already evaluated, unchanging) subject part it is bound to, which is only the same when nothing
+    outside the case reads the captured name (a capture stays bound when the guard fails).  None = not expressible exactly.
+    The case bodies are SHARED with the original tree (loop / call identities stay what the other clauses see)."""
+    try:
+        from ..normalize import _pattern
+    except ImportError:
+        return None
+    pre: list = []
+
+    def simple(e: ast.AST) -> ast.AST:
+        if isinstance(e, (ast.Name, ast.Constant)):
+            return e
+        counter[0] += 1
+        tmp = f"\0match{counter[0]}"
+        pre.append(ast.copy_location(ast.Assign(targets=[ast.Name(id=tmp, ctx=ast.Store())], value=e, lineno=st.lineno), st))
+        return ast.copy_location(ast.Name(id=tmp, ctx=ast.Load()), e)
+    subject = st.subject
+    if isinstance(subject, ast.Tuple):
+        if any(isinstance(x, ast.Starred) for x in subject.elts):
+            return None
+        subj: ast.AST = ast.copy_location(ast.Tuple(elts=[simple(x) for x in subject.elts], ctx=ast.Load()), subject)
+    else:
+        subj = simple(subject)
+    stored = {x.id for x in (subject.elts if isinstance(subject, ast.Tuple) else [subject]) if isinstance(x, ast.Name)}
+    arms = []
+    parsed = []
+    for c in st.cases:
+        r = _pattern(clone(c.pattern), subj, fields)
+        if r is None or len({k for k, _ in r[1]}) != len(r[1]):
+            return None
+        parsed.append(r)
+    for k in {k for _, caps in parsed for k, _ in caps}:
+        # every read of a captured name lies in a case that captures it itself (a capture stays bound when the guard fails: a later case or
+        # the code behind the match would see it)
+        inside = [x for c, (_, caps) in zip(st.cases, parsed) if k in dict(caps) for x in ([c.guard] if c.guard is not None else []) + list(c.body)]
+        if _loads_of([fn], k) != _loads_of(inside, k) or k in stored:
+            return None
+    for c, (cond, caps) in zip(st.cases, parsed):
+        guard = c.guard
+        if caps:
+            if guard is not None:
+                if any(isinstance(n, (ast.NamedExpr, ast.Lambda, ast.ListComp, ast.SetComp, ast.DictComp, ast.GeneratorExp)) for n in ast.walk(guard)):
+                    return None
+                guard = _SubstNames(dict(caps)).visit(clone(guard))
+        if guard is not None:
+            cond = guard if cond is None else ast.BoolOp(op=ast.And(), values=[cond, guard])
+        body = [ast.copy_location(ast.Assign(targets=[ast.Name(id=k, ctx=ast.Store())], value=v, lineno=c.body[0].lineno), c.body[0]) for k, v in caps] + list(c.body)
+        arms.append((cond, body))
+    chain_: list = []
+    for cond, body in reversed(arms):
+        if cond is None:
+            chain_ = body
+        else:
+            chain_ = [ast.copy_location(ast.If(test=cond, body=body, orelse=chain_), st)]
+    if not chain_:
+        chain_ = [ast.copy_location(ast.Pass(), st)]
+    return pre + chain_
+
+
+def _orig(node):
+    """the statement of the repository tree a rebuilt twin statement stands for (itself when it was not rebuilt)"""
+    return getattr(node, "_c02_orig", node)
+
+
+def _method_aliases(fi: FuncInfo) -> dict[str, ast.AST]:
+    """EARLY-BOUND methods: local name -> attribute chain, for `send = self.endpoint.send` / `a, unpack_item = x, self.packer.unpack`.
+    The local is assigned exactly once (no parameter, no nonlocal / global), the chain is rooted at a parameter that is never rebound and no
+    prefix of the chain is stored to in the function: then `name(args)` calls what `chain(args)` calls (a bound method keeps its receiver)."""
+    used = {n.func.id for n in walk_no_nested(fi.node) if isinstance(n, ast.Call) and isinstance(n.func, ast.Name)}
+    if not used:
+        return {}
+    params = set(fi.params())
+    scoped = {x for n in ast.walk(fi.node) if isinstance(n, (ast.Nonlocal, ast.Global)) for x in n.names}
+    stores = {chain(x) for x in walk_no_nested(fi.node) if isinstance(x, ast.Attribute) and isinstance(x.ctx, (ast.Store, ast.Del))}
+    out: dict[str, ast.AST] = {}
+    for name in sorted(used):
+        if name in scoped or name in params:
+            continue
+        sd = single_def(fi, name)
+        if sd is None or sd[1] is not None:
+            continue
+        v = sd[0]
+        c = chain(v) if isinstance(v, ast.Attribute) else None
+        if c is None:
+            continue
+        parts = c.split(".")
+        if parts[0] not in params or parts[0] in scoped or local_defs(fi, parts[0]):
+            continue
+        if any(".".join(parts[:i]) in stores for i in range(2, len(parts) + 1)):
+            continue
+        out[name] = v
+    return out
+
+
+class _AliasCalls(ast.NodeTransformer):
+    def __init__(self, aliases: dict[str, ast.AST]) -> None:
+        self.aliases = aliases
+
+    def visit_Call(self, n: ast.Call):
+        self.generic_visit(n)
+        if isinstance(n.func, ast.Name) and n.func.id in self.aliases:
+            n.func = ast.copy_location(clone(self.aliases[n.func.id]), n.func)
+        return n
+
+    def visit_FunctionDef(self, n):
+        return n
+    visit_AsyncFunctionDef = visit_Lambda = visit_ClassDef = visit_FunctionDef
+
+
+def _twin(ctx: Ctx, fi: FuncInfo):
+    """(twin function node, its CFG) - or (None, None) when fi needs none - in which
+      * every `match` statement is the if/elif chain it means (the engine's CFG follows every case of a `match` blindly; its normaliser leaves
+        guarded captures and computed subject parts alone), and
+      * a call through an early-bound method local (`unpack_item = self.packer.unpack ... unpack_item(data, offset)`) is the call of the
+        attribute chain it was bound from (see _method_aliases).
+    The twin SHARES every statement it does not have to rebuild with the repository tree; a rebuilt statement knows the one it stands for
+    (_orig), so loops entered on a path are reported as the loops of the original function.  Nothing of the repository model is modified.
+    A `match` that cannot be expressed exactly is left as it is (the CFG then follows each of its cases)."""
+    key = id(fi.node)
+    hit = _MATCH_FREE.get(key)
+    if hit is not None and hit[0] is fi.node:
+        return hit[1], hit[2]
+    twin_fn = cfg = None
+    aliases = _method_aliases(fi)
+
+    def alias_call(x: ast.AST) -> bool:
+        return any(isinstance(n, ast.Call) and isinstance(n.func, ast.Name) and n.func.id in aliases for n in ast.walk(x))
+    has_match = any(isinstance(x, ast.Match) for x in walk_no_nested(fi.node))
+    if has_match or (aliases and alias_call(fi.node)):
+        try:
+            from ..normalize import _named_fields
+            fields = _named_fields(fi.module.tree)
+        except Exception:  # noqa: BLE001
+            fields = {}
+        counter = [0]
+
+        def expr(e, parent):
+            if e is None or not aliases or not alias_call(e):
+                return e
+            new = _AliasCalls(aliases).visit(clone(e))
+            _new_parents(new, parent)
+            return new
+
+        def block(stmts: list) -> list:
+            out = []
+            for s in stmts:
+                if isinstance(s, (ast.FunctionDef, ast.AsyncFunctionDef, ast.ClassDef)) \
+                        or not (any(isinstance(x, ast.Match) for x in ast.walk(s)) or (aliases and alias_call(s))):
+                    out.append(s)
+                    continue
+                par = getattr(s, "_parent", None)
+                if isinstance(s, ast.Match):
+                    twin = ast.copy_location(ast.Match(subject=expr(s.subject, par), cases=[
+                        ast.match_case(pattern=c.pattern, guard=expr(c.guard, par), body=block(c.body)) for c in s.cases]), s)
+                    ifs = _match_as_ifs(fi.node, twin, fields, counter)
+                    if ifs is None:
+                        twin._parent = par  # type: ignore[attr-defined]
+                        twin._c02_orig = s  # type: ignore[attr-defined]
+                        out.append(twin)
+                    else:
+                        for x in ifs:
+                            _new_parents(x, par)
+                        out.extend(ifs)
+                    continue
+                blocks = [f for f in ("body", "orelse", "finalbody", "handlers") if isinstance(getattr(s, f, None), list) and getattr(s, f)
+                          and isinstance(getattr(s, f)[0], (ast.stmt, ast.ExceptHandler))]
+                if not blocks:
+                    twin = _AliasCalls(aliases).visit(clone(s))         # a simple statement with a call through an early-bound method
+                    _new_parents(twin, par)
+                    twin._c02_orig = s  # type: ignore[attr-defined]
+                    out.append(twin)
+                    continue
+                twin = type(s)()                      # a compound statement around one of them: a shallow twin with rebuilt blocks / header
+                twin._parent = par  # type: ignore[attr-defined]
+                twin._c02_orig = s  # type: ignore[attr-defined]
+                for f in s._fields:
+                    v = getattr(s, f, None)
+                    if f == "handlers":
+                        hs = []
+                        for h in v:
+                            h2 = ast.copy_location(ast.ExceptHandler(type=h.type, name=h.name, body=block(h.body)), h)
+                            h2._parent = twin  # type: ignore[attr-defined]
+                            h2._c02_orig = h  # type: ignore[attr-defined]
+                            hs.append(h2)
+                        v = hs
+                    elif f in blocks:
+                        v = block(v)
+                    elif isinstance(v, ast.expr) and isinstance(getattr(v, "ctx", None), (ast.Load, type(None))):
+                        v = expr(v, twin)
+                    elif f == "items" and isinstance(v, list) and any(alias_call(i) for i in v):
+                        v = [_AliasCalls(aliases).visit(clone(i)) for i in v]
+                        for i in v:
+                            _new_parents(i, twin)
+                    setattr(twin, f, v)
+                ast.copy_location(twin, s)
+                out.append(twin)
+            return out
+        body = block(fi.node.body)
+        twin_fn = type(fi.node)()
+        for f in fi.node._fields:
+            setattr(twin_fn, f, body if f == "body" else getattr(fi.node, f, None))
+        ast.copy_location(twin_fn, fi.node)
+        twin_fn._c02_orig = fi.node  # type: ignore[attr-defined]
+        ast.fix_missing_locations(twin_fn)
+        from ..cfg import CFG
+        cfg = CFG(twin_fn)
+    if len(_MATCH_FREE) > 64:
+        _MATCH_FREE.clear()
+    _MATCH_FREE[key] = (fi.node, twin_fn, cfg)
+    return twin_fn, cfg
+
+
+def _match_free(ctx: Ctx, fi: FuncInfo):
+    """CFG of the twin of fi (see _twin) if every `match` of fi could be expressed as the if/elif chain it means, else None."""
+    twin_fn, cfg = _twin(ctx, fi)
+    if twin_fn is None or any(isinstance(x, ast.Match) for x in walk_no_nested(twin_fn)):
+        return None
+    return cfg
+
+
 def _exec_paths(ctx: Ctx, pm: PackerModel, fi: FuncInfo, start: UnpackRun, depth: int = 0):
     """All normally returning paths of fi, started in the state `start` (a fresh run, or the frame of a followed helper)."""
     cfg = ctx.cfg(fi)
+    cfg = _twin(ctx, fi)[1] or cfg
     out = []
     nframes = len(start.frames)
     for path in cfg.paths(limit=400):
@@ -3339,8 +3581,9 @@ def _layout_agreement(ctx: Ctx, cls: ClassInfo, pk: FuncInfo, un: FuncInfo, alts
         # the count read with the length format drives the one loop; the inner packer is run on the threaded offset
         # (the number of rounds of the loop is a linear form over the wire values: `for .. in range(n)`, `range(0, n)`, a counting `while`)
         loops_seen = {id(l): (l, n) for r, _ in runs for l, n in r.loops}
+        twin_loops = {id(_orig(l)): l for l in walk_no_nested(_twin(ctx, un)[0] or un.node) if isinstance(l, (ast.While, ast.For, ast.AsyncFor))}
         odd = [l for l in walk_no_nested(un.node) if isinstance(l, (ast.While, ast.For, ast.AsyncFor)) and (id(l) not in loops_seen or loops_seen[id(l)][1] is None)
-               and any(call_name(c) == "unpack" for c in calls(l))]
+               and any(call_name(c) == "unpack" for c in calls(twin_loops.get(id(l), l)))]
         if odd:
             _listof_interpreted(ctx, cls, pk, un, f"the inner packer is repeated with `{norm(odd[0])[:60]}`")
             return
@@ -3351,7 +3594,8 @@ def _layout_agreement(ctx: Ctx, cls: ClassInfo, pk: FuncInfo, un: FuncInfo, alts
                 ok = False
             if len({id(l) for l, _ in r.loops}) > 1 or any(n != r.wsym(0, 0) for _, n in r.loops):
                 ok = False
-        inner = [c for c in calls(un) if call_name(c) == "unpack" and isinstance(c.func, ast.Attribute) and rchain(un, c.func.value) == "self.packer"]
+        # (calls through an early-bound method local - `unpack_item = self.packer.unpack` - are read as calls of the chain they were bound from)
+        inner = [c for c in calls(_twin(ctx, un)[0] or un.node) if call_name(c) == "unpack" and isinstance(c.func, ast.Attribute) and rchain(un, c.func.value) == "self.packer"]
         ok = ok and len(inner) == 1 and len(inner[0].args) >= 2 and chain(inner[0].args[0]) == un.params()[1] and isinstance(inner[0].args[1], ast.Name)
         if ok:
             # threaded: the new offset returned by the inner packer is stored in the very variable that is passed as its offset
@@ -3465,8 +3709,9 @@ def _layout_agreement(ctx: Ctx, cls: ClassInfo, pk: FuncInfo, un: FuncInfo, alts
         # Decided per tag value: the first wire byte is ASSUMED to be that tag; conditions on it (==, in, lookups in constant tables,
         # scans of constant tables) are evaluated, paths they exclude are dropped, and every remaining returning path must read
         # the layout pack writes for the tag - however the selection is spelled (if-chain, single exit, table, helper).
-        if any(isinstance(x, ast.Match) for x in walk_no_nested(un.node)):
-            raise AnalysisError("undecided: packer-symmetry: Address.unpack selects the layout with a match statement")
+        if any(isinstance(x, ast.Match) for x in walk_no_nested(un.node)) and _match_free(ctx, un) is None:
+            raise AnalysisError("undecided: packer-symmetry: Address.unpack selects the layout with a match statement whose patterns are not "
+                                "expressible as the if/elif chain they mean")
         pm = PackerModel(ctx, un.cls)
         layout_p: dict = {}
         conv_p: dict = {}
@@ -3612,6 +3857,15 @@ _METHODS = {list: {"append", "extend", "insert", "index", "count", "pop", "rever
             bytes: {"join", "startswith", "endswith", "decode", "hex", "rjust", "ljust", "split", "find", "index", "count", "replace"},
             str: {"join", "startswith", "endswith", "encode", "lower", "upper", "format", "split", "strip", "replace", "find"},
             int: {"to_bytes", "bit_length"}, set: {"add", "discard", "union", "intersection"}, frozenset: {"union", "intersection"}}
+
+
+class _OpaqueMethod(Opaque):
+    """the bound method `name` of a token, held in a local: a token itself; calling it is the method call on the token"""
+
+    def __init__(self, name: str, base) -> None:
+        super().__init__(f"bound method {name}")
+        self.name = name
+        self.base = base
 
 
 class _Obj(Opaque):
@@ -4178,8 +4432,19 @@ class Mini:
             return self._call_value(f, args, kwargs, where)
         raise MiniUndecided(f"{self.fi.qualname}: call of `{attr}` of {base!r}")
 
+    def _early_bound(self) -> set:
+        """ids of the attribute chains that early-bound method locals of the interpreted function are bound from (see _method_aliases)"""
+        if getattr(self, "_early", None) is None:
+            self._early = {id(strip_cast(v)) for v in _method_aliases(self.fi).values()}
+        return self._early
+
     def _call_value(self, f, args: list, kwargs: dict, where):
         """call of a computed callee: an interpreted function value / lambda / partial / trusted stdlib callable / callable object"""
+        if isinstance(f, _OpaqueMethod):
+            r = self.on_call(f.name, f.base, list(args), dict(kwargs)) if self.on_call is not None else NotImplemented
+            if r is NotImplemented:
+                raise MiniUndecided(f"{self.fi.qualname}: call of {f!r} in `{norm(where)[:50]}`")
+            return r
         if isinstance(f, _Obj):
             m = f.cls.lookup("__call__")
             if m is None:
@@ -4334,6 +4599,15 @@ class Mini:
                 if a is not None:
                     owner = next(k for k in self.fi.cls.mro() if e.attr in k.attrs)
                     return self._constant(owner.module, owner, a)      # a class-level table / precompiled struct
+            if isinstance(base, _PLAIN) and getattr(type(base), "_mini_cls", None) is None and e.attr != "sort" \
+                    and any(isinstance(base, t) and e.attr in ms for t, ms in _METHODS.items()):
+                # `push = out.append`: the bound method of a plain value (a list / dict / bytes of the trusted interpreter) - calling it later
+                # is the same method call on the same object
+                return getattr(base, e.attr)
+            if isinstance(base, Opaque) and self.on_call is not None and id(e) in self._early_bound():
+                # `unpack_item = self.packer.unpack`: the bound method of a token, early-bound into a local that is only ever called -
+                # itself a token; calling it is the method call on the token (decided by the hook, like `self.packer.unpack(..)`)
+                return _OpaqueMethod(chain(e) or e.attr, base)
             raise MiniUndecided(f"{self.fi.qualname}: attribute `{norm(e)[:50]}`")
         if isinstance(e, (ast.Tuple, ast.List, ast.Set)):
             out = []
@@ -4516,7 +4790,7 @@ class Mini:
         else:
             base = _NOBASE
         if isinstance(e.func, ast.Name) and e.func.id in env:
-            if callable(env[e.func.id]) or isinstance(env[e.func.id], _Obj):
+            if callable(env[e.func.id]) or isinstance(env[e.func.id], (_Obj, _OpaqueMethod)):
                 return self._call_value(env[e.func.id], args, kwargs, e)
             base = env[e.func.id]            # a local / parameter that is called (e.g. `cls(...)`): handed to the hook as the callee value
         if name in ("Struct", "struct.Struct") and len(args) == 1 and isinstance(args[0], str) and not kwargs and not (isinstance(e.func, ast.Name) and e.func.id in env):
